@@ -3,3 +3,4 @@ import XPathV.Theorems.C02
 #print axioms XPathV.Theorems.C02.reset_forwarded
 #print axioms XPathV.Theorems.C02.verdict_is_local
 #print axioms XPathV.Theorems.C02.smartdesc_stops_at_filters
+#print axioms XPathV.Theorems.C02.evaluate_restarts_from_any_state
